@@ -27,6 +27,7 @@ opened by the previous directive.
     %wrap N `anchor`              two text blocks separated by a line '---': inserted before / after the anchor tokens
     %truncate N `e as T`          shorthand: wrap the cast in #[verifier::truncate] ( ... )
     %nocanary                     do not emit the reachability canary for this function
+    %optional                     the function exists only in some builds (cfg): skipped silently where it does not
     %closure N [optional]         R20: `%fn PATH#TAG` is the N-th immediately-invoked closure `(|| -> T { .. })()` of PATH, lifted
                                   to a function NAME__TAG (lambda lifting); `optional`: absent in some builds (cfg)
     %sig (params)                 R20: the lifted function's parameter list (the captured variables)
@@ -73,6 +74,7 @@ class FnSpec:
     loops: dict = field(default_factory=dict)     # n -> (iter_name, text)
     hints: list = field(default_factory=list)
     nocanary: bool = False
+    optional: bool = False
     specialize: dict = field(default_factory=dict)
     closure: int = 0
     closure_optional: bool = False
@@ -264,6 +266,8 @@ def parse_unit(path):
             cur_fn.props = arg.split()
         elif d == "%nocanary":
             cur_fn.nocanary = True
+        elif d == "%optional":
+            cur_fn.optional = True
         elif d == "%closure":
             ps = arg.split()
             cur_fn.closure = int(ps[0])
